@@ -24,6 +24,10 @@ mod c19;
 mod c20;
 mod dynaut;
 mod core;
+mod memtrack;
+
+#[global_allocator]
+static ALLOC: memtrack::Counting = memtrack::Counting;
 
 use common::*;
 use std::io::Write;
